@@ -36,6 +36,8 @@ func runC14(c *core.Ctx) {
 		Reason: "properties are read by any client while the mailbox goroutine or the service writes them"})
 	lockPairing(c, lc, "C14.register", []*ssa.Function{c.Func("bus", "objectImpl", "Property"), c.Func("bus", "objectImpl", "saveProperty"), c.Func("bus", "objectImpl", "Properties")})
 	ruleSaveStores(c)
+	c.Doc("C14.serial", "an object's mails are handled one at a time by one goroutine (writes to a property take effect in one order)", 2)
+	ruleMailboxSerial(c, "C14.serial")
 	c.Doc("C14.typed", "generated onPropertyChange rejects undecodable bytes; generated Get<Prop> checks the signature first", 4)
 	ruleTypedProperties(c)
 	// one change event per accepted write to each subscriber: the emission
